@@ -1146,6 +1146,15 @@ func (e *vfCFEnv) exec(a vfCFAct) (string, error) {
 		if err := want("top"); err != nil {
 			return "", err
 		}
+		// the wait loop :538-559
+		bm.newHeadersMtx.RLock()
+		bm.newFilterHeadersMtx.RLock()
+		lag := bm.filterHeaderTip+wire.CFCheckptInterval <= bm.headerTip
+		bm.newFilterHeadersMtx.RUnlock()
+		bm.newHeadersMtx.RUnlock()
+		if !(lag || bm.BlockHeadersSynced()) {
+			return "", fmt.Errorf("cfHandler waits for block headers here")
+		}
 		hdr, h, err := bm.cfg.BlockHeaders.ChainTip()
 		if err != nil {
 			return "", err
@@ -1185,15 +1194,16 @@ func (e *vfCFEnv) exec(a vfCFAct) (string, error) {
 		}
 		e.allCP = ev.val[0].(map[string][]*chainhash.Hash)
 		if len(e.allCP) == 0 {
-			return "none", nil
+			return "none", nil // :616 sleep, continue
 		}
+		e.pc = "resolve"
 		return "ok", nil
 
 	case "RStart":
-		if err := want("loop"); err != nil {
+		if err := want("loop", "resolve"); err != nil {
 			return "", err
 		}
-		if minCheckpointHeight(e.allCP) < e.lastH {
+		if e.pc == "loop" && minCheckpointHeight(e.allCP) < e.lastH {
 			return "", fmt.Errorf("cfHandler would fetch checkpoints first")
 		}
 		// :629-641
